@@ -322,3 +322,28 @@ func famZ6(counts []int) []xferCase {
 	}
 	return out
 }
+
+// famZ7: blocking-write mode against a window that closes: single-chunk messages, so that the
+// zero-window probe carries the last (only) chunk of a write; the reader resumes later.
+func famZ7(modes []modeSpec, k int) []xferCase {
+	var out []xferCase
+	for _, mode := range modes {
+		for _, sz := range []int{150, 400} {
+			a := withBase(mode.A, 228, 0xFFFFFFF0, 4000)
+			a.BlockWrite = true
+			b := withBase(mode.B, 228, 9, 4000)
+			b.RecvBuf = 1500
+			var msgs []msgSpec
+			for i := 0; i < 14; i++ {
+				msgs = append(msgs, msgSpec{Size: sz, PPI: 53})
+			}
+			out = append(out, xferCase{
+				Name: fmt.Sprintf("Z7/%s/block/size%d", mode.Name, sz),
+				K:    k,
+				Spec: &xferSpec{A: a, B: b, Faults: allFaults, PauseReader: 3 * time.Second, NoSackComplete: true,
+					Streams: []streamSpec{{SID: 1, From: 0, Msgs: msgs}}},
+			})
+		}
+	}
+	return out
+}
